@@ -3,7 +3,6 @@ using SP_c3_b = SplineTrajectory::CubicSplineND<3>;
 using TM_c3_b = SplineTrajectory::QuadInvTimeMap;
 using SM_c3_b = SplineTrajectory::IdentitySpatialMap<3>;
 OPT_REGISTER_ONE(C12, P_C12, c3_b, SP_c3_b, TM_c3_b, SM_c3_b, false, 1)
-#ifndef STSIM_TSAN
 OPT_REGISTER_ONE(C07, P_C07, c3_b, SP_c3_b, TM_c3_b, SM_c3_b, false, 1)
 OPT_REGISTER_ONE(C08, P_C08, c3_b, SP_c3_b, TM_c3_b, SM_c3_b, false, 1)
 OPT_REGISTER_ONE(C09, P_C09, c3_b, SP_c3_b, TM_c3_b, SM_c3_b, false, 1)
@@ -11,4 +10,3 @@ OPT_REGISTER_ONE(C10, P_C10, c3_b, SP_c3_b, TM_c3_b, SM_c3_b, false, 1)
 OPT_REGISTER_ONE(C15, P_C15, c3_b, SP_c3_b, TM_c3_b, SM_c3_b, false, 1)
 OPT_REGISTER_ONE(C16, P_C16, c3_b, SP_c3_b, TM_c3_b, SM_c3_b, false, 1)
 OPT_REGISTER_ONE(C19, P_C19, c3_b, SP_c3_b, TM_c3_b, SM_c3_b, false, 1)
-#endif
